@@ -44,5 +44,11 @@ Boundary ==
           /\ a.w = Final \o b.w
   \/ Cex("Boundary")
 
-Replay == Len(hist) = 0 \/ Len(hist) > ReplayLen \/ PrintT(<<"REPLAY", ToJson([h |-> hist, rows |-> [i \in DOMAIN Final |-> <<Final[i].t, Final[i].k>>]])>>)
+Replay == Len(hist) = 0 \/ Len(hist) > ReplayLen \/ PrintT(<<"REPLAY", ToJson([h |-> hist, done |-> E!Complete(gs), rows |-> [i \in DOMAIN Final |-> <<Final[i].t, Final[i].k>>]])>>)
+
+\* complete single sections (for the concatenation law of C10)
+NDiff == Cardinality({i \in DOMAIN hist : hist[i].c = "diff"})
+OneSection == NDiff <= 1
+ReplaySections == ~(NDiff = 1 /\ E!Complete(gs) /\ Len(hist) <= ReplayLen)
+                  \/ PrintT(<<"SECTION", ToJson(hist)>>)
 =============================================================================
